@@ -83,7 +83,7 @@ theorem close_opened {ext : WExt} {D : List Spec.Zip.Entry} {gap c : Bytes} {o :
     | false =>
       rw [hraw] at h
       simp only [Bool.false_eq_true, if_false] at h
-      by_cases hov : o.f.largeFile = false ∧ UInt64.ofNat (dataOf ext o.f o.plain).length > ZIP64_BYTES_THR
+      by_cases hov : o.f.largeFile = false ∧ (UInt64.ofNat (dataOf ext o.f o.plain).length > ZIP64_BYTES_THR ∨ o.plain.length > 0xFFFFFFFF)
       · rw [if_pos hov] at h; cases h
       rw [if_neg hov] at h
       cases h
